@@ -500,3 +500,60 @@ Proof.
     { unfold l2f. destruct (length (o_path mo)); cbn; rewrite Hch, Hq; reflexivity. }
     rewrite Hl2, Hqn. cbn. exact Hoq.
 Qed.
+
+(* ---------------------------------------------------------------- class scope falling back to its module *)
+Lemma l2f_nonclass_fuel : forall f st o n, o_kind o <> KClass -> local_to_full f st o n = l2f st o n.
+Proof.
+  intros f st o n Hk. unfold l2f.
+  assert (H : forall g, local_to_full g st o n =
+                        match child st o n with
+                        | Some c => o_path c
+                        | None => match assoc n (o_amap o) with Some q => q | None => [n] end
+                        end).
+  { intro g. destruct g; cbn; destruct (child st o n); try reflexivity;
+      destruct (assoc n (o_amap o)); try reflexivity; destruct (o_kind o); try reflexivity; congruence. }
+  rewrite !H. reflexivity.
+Qed.
+
+Lemma class_fallback_expand : forall st ctx pm p rest,
+  o_kind ctx = KClass -> child st ctx p = None -> assoc p (o_amap ctx) = None ->
+  parent_of st ctx = Some pm -> o_kind pm <> KClass -> o_path ctx <> [] ->
+  expand_from st ctx true (p :: rest) = expand_from st pm true (p :: rest).
+Proof.
+  intros st ctx pm p rest Hk Hc Ha Hp Hpk Hne.
+  assert (Hl : l2f st ctx p = l2f st pm p).
+  { unfold l2f at 1. destruct (length (o_path ctx)) eqn:El.
+    - destruct (o_path ctx); [congruence | discriminate].
+    - cbn. rewrite Hc, Ha, Hk, Hp. apply l2f_nonclass_fuel. exact Hpk. }
+  cbn [expand_from]. rewrite Hl. cbn [negb andb]. rewrite !andb_false_r. reflexivity.
+Qed.
+
+Section Fallback.
+  Variable P : project.
+  Variable st : state.
+  Hypothesis Hc : coherent P st.
+
+  (* a class directly inside a module: a name the class body does not bind is looked up in the module, by
+     pydoctor (Class._localNameToFullName -> parent) and by Python (LOAD_NAME: class namespace, then globals) *)
+  Theorem expand_sound_class_fallback : forall ctx pm m qual p rest v,
+    In ctx (objs st) -> o_kind ctx = KClass -> o_path ctx <> [] -> qual <> [] ->
+    parent_of st ctx = Some pm -> In pm (objs st) -> o_kind pm <> KClass ->
+    py_abs P (o_path pm) (VMod m) ->
+    child st ctx p = None -> assoc p (o_amap ctx) = None ->
+    (forall body, scope_body P m qual = Some body -> binder_of body p = None) ->
+    py_lookup P m qual (p :: rest) v ->
+    trail_ok st pm true (p :: rest) = true ->
+    py_abs P (expand_name st ctx (p :: rest)) v.
+  Proof.
+    intros ctx pm m qual p rest v Hin Hk Hne Hq Hpar Hinp Hpk Habs Hch Has Hnb Hpy Hok.
+    unfold expand_name. rewrite (class_fallback_expand st ctx pm p rest Hk Hch Has Hpar Hpk Hne).
+    apply (expand_sound P st Hc pm m [] (p :: rest) v Hinp Habs); [|exact Hok].
+    unfold py_lookup in *. inversion Hpy as [m0 qual0 d rest0 v0 v1 Hn Hat]; subst.
+    econstructor; [|exact Hat]. apply pn_own.
+    inversion Hn as [m0 qual0 d v1 Hns | m0 qual0 body d v1 Hq' Hsb Hb Hns]; subst.
+    - exfalso. inversion Hns as [m0 qual0 body0 n0 b0 v1 Hsb0 Hbo Hpb | m0 mm0 n0 Hfm0 Hpk0 Hbo0 Him0]; subst.
+      + rewrite (Hnb _ Hsb0) in Hbo. discriminate.
+      + congruence.
+    - exact Hns.
+  Qed.
+End Fallback.
